@@ -59,7 +59,7 @@ func yieldStmt(s ast.Stmt) ast.Stmt {
 
 func instrList(list []ast.Stmt) []ast.Stmt {
 	out := make([]ast.Stmt, 0, 2*len(list))
-	for _, s := range list {
+	for i, s := range list {
 		instrStmt(s)
 		switch s.(type) {
 		case *ast.DeclStmt, *ast.EmptyStmt:
@@ -68,6 +68,12 @@ func instrList(list []ast.Stmt) []ast.Stmt {
 		}
 		if relevant(s) {
 			out = append(out, yieldStmt(s), s)
+			if isUnlock(s) && i+1 < len(list) {
+				// also right after an unlock: the window between releasing a lock and whatever comes next
+				if _, ret := list[i+1].(*ast.ReturnStmt); !ret && !relevant(list[i+1]) {
+					out = append(out, yieldStmt(list[i+1]))
+				}
+			}
 		} else {
 			out = append(out, s)
 		}
@@ -78,6 +84,33 @@ func instrList(list []ast.Stmt) []ast.Stmt {
 var syncNames = map[string]bool{"Lock": true, "Unlock": true, "RLock": true, "RUnlock": true, "Wait": true, "Add": true,
 	"Done": true, "Store": true, "Load": true, "Do": true, "Stop": true, "Reset": true, "Close": true, "Set": true,
 	"CompareAndSwap": true, "Swap": true}
+
+// atomicFn recognises the functions of package sync/atomic (atomic.AddInt32, atomic.LoadUint64, ...).
+func atomicFn(se *ast.SelectorExpr) bool {
+	if id, ok := se.X.(*ast.Ident); !ok || id.Name != "atomic" {
+		return false
+	}
+	for _, p := range []string{"Add", "Load", "Store", "Swap", "CompareAndSwap", "And", "Or"} {
+		if strings.HasPrefix(se.Sel.Name, p) {
+			return true
+		}
+	}
+	return false
+}
+
+// isUnlock reports whether the statement is a plain x.Unlock() / x.RUnlock() call.
+func isUnlock(s ast.Stmt) bool {
+	es, ok := s.(*ast.ExprStmt)
+	if !ok {
+		return false
+	}
+	ce, ok := es.X.(*ast.CallExpr)
+	if !ok {
+		return false
+	}
+	se, ok := ce.Fun.(*ast.SelectorExpr)
+	return ok && (se.Sel.Name == "Unlock" || se.Sel.Name == "RUnlock")
+}
 
 func isNil(nd ast.Node) bool {
 	if nd == nil {
@@ -116,7 +149,7 @@ func exprRelevant(nd ast.Node) bool {
 				found = true
 			}
 		case *ast.CallExpr:
-			if se, ok := e.Fun.(*ast.SelectorExpr); ok && syncNames[se.Sel.Name] {
+			if se, ok := e.Fun.(*ast.SelectorExpr); ok && (syncNames[se.Sel.Name] || atomicFn(se)) {
 				found = true
 			}
 			if id, ok := e.Fun.(*ast.Ident); ok && id.Name == "close" {
